@@ -99,6 +99,19 @@ def all_exhaustive():
     for c in (152, 153, 128, 127):
         yield "exh", prog([], [c])
         yield "exh", prog([b"\x01"], [c])
+    # unary operators over EVERY byte string of length 0..5 (0..4 for the numeric ones) over {00,01,7f,80,81,ff}: all shapes of
+    # non-minimal encodings (padding bytes, separate sign byte, negative zero, top bit set below the padding)
+    A6B = [0x00, 0x01, 0x7F, 0x80, 0x81, 0xFF]
+    for L in range(0, 6):
+        for tup in itertools.product(A6B, repeat=L):
+            v = bytes(tup)
+            yield "exh", prog([v], [129])  # BIN2NUM
+            if L <= 4:
+                for c in (139, 140, 143, 144, 145, 146, 130):  # 1ADD 1SUB NEGATE ABS NOT 0NOTEQUAL SIZE
+                    yield "exh", prog([v], [c])
+            if L <= 3:
+                yield "exh", prog([v, b"\x04"], [128, 129])  # NUM2BIN(4) then BIN2NUM
+                yield "exh", prog([b"\x01", v], [147])  # ADD with a non-minimal operand
     # conditionals: predicate x IF/NOTIF x else/no else, nested, empty branches
     for p in V15 + [b"\x00\x00", b"\x00\x80", b"\x00\x00\x00\x00\x00", b"\x01\x00\x00\x00\x00"]:
         for op in (99, 100):
